@@ -250,23 +250,48 @@ func safely(f func() string) (res string) {
 
 // newDataReader: the decoders are given the same bytes through different readers — a *bytes.Reader, a
 // *bytes.Buffer (what the repository itself decodes payloads from), a reader that hands out one byte per
-// call.  Which one follows from the data, so that a line replays the same way.  The second result tells
+// call, readers that report the end together with the last bytes.  Which one follows from the data, so that a line replays the same way.  The second result tells
 // how many bytes are left unread.
 func newDataReader(data []byte) (io.Reader, func() int) {
 	k := len(data)
 	if len(data) > 0 {
 		k += int(data[len(data)-1])
 	}
-	switch k % 3 {
+	switch k % 5 {
 	case 0:
 		r := bytes.NewReader(data)
 		return r, r.Len
 	case 1:
 		b := bytes.NewBuffer(append([]byte(nil), data...))
 		return b, b.Len
+	case 2:
+		// the end of the stream is reported by the call that hands out the last bytes (a TLS connection whose
+		// peer closes after the data, iotest.DataErrReader): `(n > 0, io.EOF)`
+		r := bytes.NewReader(data)
+		return eofWithDataReader{r, 1 << 30}, r.Len
+	case 3:
+		// the same, seven bytes at a time
+		r := bytes.NewReader(data)
+		return eofWithDataReader{r, 7}, r.Len
 	}
 	r := bytes.NewReader(data)
 	return oneByteReader{r}, r.Len
+}
+
+type eofWithDataReader struct {
+	r   *bytes.Reader
+	max int
+}
+
+func (e eofWithDataReader) Read(p []byte) (int, error) {
+	if len(p) > e.max {
+		p = p[:e.max]
+	}
+	n, err := e.r.Read(p)
+	if err == nil && e.r.Len() == 0 {
+		err = io.EOF
+	}
+	return n, err
 }
 
 type oneByteReader struct{ r io.Reader }
